@@ -384,6 +384,7 @@ UNIT = Unit('U-EXP3', TEMPLATE, fns=[common.has_operator_fn(), common.in_assignm
             types=[TypeItem('src/types.rs', 'struct', 'Command'), TypeItem('src/types.rs', 'struct', 'CommandLine'), TypeItem('src/types.rs', 'struct', 'CommandResult'), TypeItem('src/tools.rs', 'const', 'MAX_NESTING')],
             props=('C11', 'C13', 'C01', 'C05'))
 TRUSTED = common.TRUSTED_STR + common.TRUSTED_TOKEN + [
+    'the machine stack is treated as unbounded: termination (decreases) is proved for the recursive brace parser, the substitution pass and the callers of the calculator, their recursion DEPTH is not; it is bounded by tools::MAX_NESTING (<= 200 required; 1000 levels were measured to fit the 8 MB main stack of a debug build) through the gates need_expand_brace / should_do_dollar_command_extension / run_calculator, which are under contract',
     'the substitution passes no longer use regexes to locate a substitution: split_first_substitution (both spellings) is verified (first `$(` with its matching `)`, or a pair of '
     'backquotes; pieces concatenate to the text; tail shorter); the gate should_do_dollar_command_extension is under contract (its two pattern literals stay uninterpreted; the word must be within the nesting limit)',
     'that the text appended is the command\'s stdout (trimmed) is kernel / std behaviour',
